@@ -455,7 +455,7 @@ var c09PlanNames = []string{"whole", "1-byte", "7-byte", "16+rest", "random+zero
 func c09Gen(c *Ctx) {
 	maxLen := c.N(80, 160)
 	// A. encryption, every plaintext length, pinned salt: Encrypt, SaltBySecretCBCEncrypt, GCMEncrypt, SaltBySecretGCMEncrypt
-	c.Each(4*(maxLen+1)*c.N(1, 3), func(i int, t *T) {
+	c.Each(4*(maxLen+1)*c.N(2, 6), func(i int, t *T) {
 		kind := int64([]int{0, 4, 2, 6}[i%4])
 		n := (i / 4) % (maxLen + 1)
 		ad := rbytes(t, t.R.Intn(20))
@@ -471,7 +471,7 @@ func c09Gen(c *Ctx) {
 		t.Try("random-source-fails", c09Case(kind, 0, 0, 5, 32768, 0, rbytes(t, t.R.Intn(20)), c09Secret(t), nil, nil, []int64{3}), true)
 	})
 	// B. decryption of well-formed messages built independently (EVP_BytesToKey + library CBC/GCM)
-	c.Each(4*(maxLen+1)*c.N(1, 3), func(i int, t *T) {
+	c.Each(4*(maxLen+1)*c.N(2, 6), func(i int, t *T) {
 		kind := int64([]int{1, 5, 3, 7}[i%4])
 		n := (i / 4) % (maxLen + 1)
 		p, secret, salt := rbytes(t, n), c09Secret(t), rbytes(t, 8)
@@ -494,8 +494,42 @@ func c09Gen(c *Ctx) {
 			t.Try("salt-gcm-decrypt-valid", c09Case(7, int64(t.R.Intn(2)), 0, flags, 0, 0, refGCMMessage(p, secret, salt, ad), secret, nil, ad, nil), true)
 		}
 	})
+	// E. streams: every chunk-plan style x terminal behaviour x data lengths around the header and block boundaries
+	slens := []int{0, 1, 15, 16, 17, 31, 32, 33, 48, 100}
+	if !c.Quick() {
+		slens = append(slens, 255, 256, 700)
+	}
+	Bs := []int64{32768, 1, 5, 16, 17, 64}
+	c.Each(len(slens)*6*3*2*c.N(4, 12), func(i int, t *T) {
+		n := slens[i%len(slens)]
+		style := (i / len(slens)) % 6
+		term := int64((i / (len(slens) * 6)) % 3)
+		enc := (i/(len(slens)*6*3))%2 == 0
+		secret, salt := c09Secret(t), rbytes(t, 8)
+		p := rbytes(t, n)
+		budget := int64(1 << 30)
+		switch t.R.Intn(8) {
+		case 0:
+			budget = int64(t.R.Intn(2)) // not even the header goes through
+		case 1:
+			budget = int64(2 + t.R.Intn(6)) // fails somewhere in the body (or not at all)
+		case 2:
+			budget = int64(n + 18) // exactly enough for one write per byte
+		}
+		t.C.Count("stream-writer", map[bool]string{true: "accepts-all", false: "limited"}[budget >= int64(n+18)])
+		t.C.Count("stream-plan", c09PlanNames[style])
+		t.C.Count("stream-term", fmt.Sprint(term))
+		if enc {
+			t.Try("stream-encrypt", c09Case(8, term, 1, budget, 32768, 0, p, secret, salt, nil, c09Plan(t, n, style)), true)
+		} else {
+			msg := refStream(p, secret, salt)
+			B := Bs[t.R.Intn(len(Bs))]
+			t.C.Count("stream-B", fmt.Sprint(B))
+			t.Try("stream-decrypt", c09Case(9, term, 0, budget, B, 0, msg, secret, nil, nil, c09Plan(t, len(msg), style)), true)
+		}
+	})
 	// C. every single-character corruption and every truncation of every kind of ciphertext
-	nm := c.N(2, 8)
+	nm := c.N(4, 12)
 	type cmsg struct {
 		kind       int64
 		msg        []byte
@@ -617,7 +651,7 @@ func c09Gen(c *Ctx) {
 	})
 	// D. garbage and boundary-length inputs for every decryption entry point
 	lens := []int{0, 1, 7, 8, 9, 15, 16, 17, 31, 32, 33, 47, 48, 49, 64}
-	c.Each(c.N(3000, 40000), func(i int, t *T) {
+	c.Each(c.N(4000, 60000), func(i int, t *T) {
 		kind := int64([]int{1, 3, 5, 7, 9}[i%5])
 		n := lens[t.R.Intn(len(lens))]
 		if t.R.Intn(4) == 0 {
@@ -664,34 +698,6 @@ func c09Gen(c *Ctx) {
 			return
 		}
 		t.Try("garbage", c09Case(kind, int64(t.R.Intn(2)), 0, int64(t.R.Intn(8)), 0, 0, msg, c09Secret(t), nil, rbytes(t, t.R.Intn(4)), nil), n >= 16)
-	})
-	// E. streams: every chunk-plan style x terminal behaviour x data lengths around the header and block boundaries
-	slens := []int{0, 1, 15, 16, 17, 31, 32, 33, 48, 100}
-	if !c.Quick() {
-		slens = append(slens, 255, 256, 700)
-	}
-	Bs := []int64{32768, 1, 5, 16, 17, 64}
-	c.Each(len(slens)*6*3*2*c.N(2, 6), func(i int, t *T) {
-		n := slens[i%len(slens)]
-		style := (i / len(slens)) % 6
-		term := int64((i / (len(slens) * 6)) % 3)
-		enc := (i/(len(slens)*6*3))%2 == 0
-		secret, salt := c09Secret(t), rbytes(t, 8)
-		p := rbytes(t, n)
-		budget := int64(1 << 30)
-		if t.R.Intn(5) == 0 {
-			budget = int64(t.R.Intn(5))
-		}
-		t.C.Count("stream-plan", c09PlanNames[style])
-		t.C.Count("stream-term", fmt.Sprint(term))
-		if enc {
-			t.Try("stream-encrypt", c09Case(8, term, 1, budget, 32768, 0, p, secret, salt, nil, c09Plan(t, n, style)), true)
-		} else {
-			msg := refStream(p, secret, salt)
-			B := Bs[t.R.Intn(len(Bs))]
-			t.C.Count("stream-B", fmt.Sprint(B))
-			t.Try("stream-decrypt", c09Case(9, term, 0, budget, B, 0, msg, secret, nil, nil, c09Plan(t, len(msg), style)), true)
-		}
 	})
 	// thorough: the Go output is piped through `openssl enc -d -aes-256-cbc -md md5` when the binary exists
 	if !c.Quick() {
